@@ -9,6 +9,7 @@ import (
 	"net/http"
 	"net/http/httptest"
 	"runtime"
+	"sort"
 	"strconv"
 	"strings"
 	"sync"
@@ -1012,6 +1013,128 @@ func runText(s *Stream) {
 	sink.mu.Unlock()
 }
 
+// ---------------------------------------------------------------- sized / fragmented websocket feed messages
+
+// writeFragments sends one websocket message as n frames written by hand on the connection (client frames are
+// masked): first frame with the message type and FIN clear, continuation frames, FIN set on the last.
+func writeFragments(c net.Conn, mt int, data []byte, n int, r *lib.Rng) error {
+	cuts := []int{0}
+	for i := 1; i < n; i++ {
+		cuts = append(cuts, r.Intn(len(data)+1))
+	}
+	cuts = append(cuts, len(data))
+	sort.Ints(cuts)
+	for i := 0; i < n; i++ {
+		part := data[cuts[i]:cuts[i+1]]
+		b0 := byte(0)
+		if i == 0 {
+			b0 = byte(mt)
+		}
+		if i == n-1 {
+			b0 |= 0x80
+		}
+		hdr := []byte{b0}
+		switch {
+		case len(part) < 126:
+			hdr = append(hdr, 0x80|byte(len(part)))
+		case len(part) < 65536:
+			hdr = append(hdr, 0x80|126, byte(len(part)>>8), byte(len(part)))
+		default:
+			l := uint64(len(part))
+			hdr = append(hdr, 0x80|127, byte(l>>56), byte(l>>48), byte(l>>40), byte(l>>32), byte(l>>24), byte(l>>16), byte(l>>8), byte(l))
+		}
+		key := []byte{byte(r.Intn(256)), byte(r.Intn(256)), byte(r.Intn(256)), byte(r.Intn(256))}
+		hdr = append(hdr, key...)
+		masked := make([]byte, len(part))
+		for j := range part {
+			masked[j] = part[j] ^ key[j%4]
+		}
+		if _, err := c.Write(append(hdr, masked...)); err != nil {
+			return err
+		}
+		if i+1 < n {
+			time.Sleep(200 * time.Microsecond) // the frames arrive separately
+		}
+	}
+	return nil
+}
+
+func runBig(s *Stream) {
+	o := &Observed{}
+	s.Obs = o
+	h := newHost()
+	feed := "feed-" + s.Name
+	t := h.newTap(feed)
+	type sub struct {
+		cl  *hub.Client
+		mu  sync.Mutex
+		got [][]byte
+	}
+	subs := make([]*sub, len(s.SlowUs))
+	stop := make(chan struct{})
+	defer close(stop)
+	for i, slow := range s.SlowUs {
+		u := &sub{cl: &hub.Client{Hub: h.app.Hub.Hub, Name: "verif-sub-" + strconv.Itoa(i), Topic: feed, Send: make(chan hub.Message, 2), Stats: hub.NewClientStats()}}
+		subs[i] = u
+		h.app.Hub.Register <- u.cl
+		go func(u *sub, slow int) {
+			for {
+				select {
+				case m := <-u.cl.Send:
+					u.mu.Lock()
+					u.got = append(u.got, append([]byte{}, m.Data...))
+					u.mu.Unlock()
+					if slow > 0 {
+						time.Sleep(time.Duration(slow) * time.Microsecond) // busy with this one for a while
+					}
+				case <-stop:
+					return
+				}
+			}
+		}(u, slow)
+	}
+	h.barrier()
+	c, _, err := websocket.DefaultDialer.Dial("ws://"+h.base+"/ws/"+feed, nil)
+	if err != nil {
+		o.Err = "dial: " + err.Error()
+		return
+	}
+	defer c.Close()
+	time.Sleep(3 * time.Millisecond)
+	fr := lib.NewRng(int64(len(s.Sizes))*7919 + 3)
+	for i, n := range s.Sizes {
+		msg := bigMsg(i, n)
+		var err error
+		if i < len(s.Frags) && s.Frags[i] >= 2 {
+			err = writeFragments(c.UnderlyingConn(), websocket.BinaryMessage, msg, s.Frags[i], fr)
+		} else {
+			err = c.WriteMessage(websocket.BinaryMessage, msg)
+		}
+		if err != nil {
+			o.Err = "write: " + err.Error()
+			return
+		}
+		o.Posted += n
+		if s.BurstLen > 0 && (i+1)%s.BurstLen == 0 && s.GapUs > 0 {
+			time.Sleep(time.Duration(s.GapUs) * time.Microsecond)
+		}
+	}
+	if !t.waitCount(len(s.Sizes), 5*time.Second) {
+		got, _, _ := t.state()
+		o.Err = fmt.Sprintf("%d websocket feed messages sent, only %d handed on within 5 s", len(s.Sizes), got)
+	}
+	time.Sleep(40 * time.Millisecond) // anything that is still on its way to a subscriber
+	close(t.stop)
+	t.mu.Lock()
+	o.Tap = t.msgs
+	t.mu.Unlock()
+	for _, u := range subs {
+		u.mu.Lock()
+		o.PerDest = append(o.PerDest, append([][]byte{}, u.got...))
+		u.mu.Unlock()
+	}
+}
+
 func runStream(s *Stream) {
 	defer func() {
 		if r := recover(); r != nil && s.Obs != nil {
@@ -1029,6 +1152,8 @@ func runStream(s *Stream) {
 		runWsOut(s)
 	case "dest":
 		runDest(s)
+	case "wsbig":
+		runBig(s)
 	case "agg":
 		runAgg(s)
 	case "wstext":
